@@ -14,7 +14,7 @@ extract/model_driver: build/.coq_stamp extract/Extract.v extract/driver.ml
 	cd extract && coqc -Q ../coq MP Extract.v > /dev/null
 	cd extract && ocamlfind ocamlopt -w -a -package str model.mli model.ml driver.ml -o model_driver.tmp && mv -f model_driver.tmp model_driver
 # independent Coq developments (own _CoqProject) built if present
-SUBDIRS=coq_effects
+SUBDIRS=coq_effects coq_qcheck
 SUBV=$(foreach d,$(SUBDIRS),$(wildcard $(d)/*.v $(d)/_CoqProject))
 build/.sub_stamp: $(SUBV)
 	$(MAKE) subprojects
